@@ -114,9 +114,12 @@ class FChem:
 class FAllChem:
     positions = None      # set by the harness: list of (x, y, z) per atom index
 
+    last_symbols = None
+
     @classmethod
     def EmbedMolecule(cls, m):
         m.conf = FConf(cls.positions)
+        cls.last_symbols = [a.symbol for a in m.atoms]     # which RDKit atom (index) was created for which node (unique symbols)
         return 0
 
     @staticmethod
@@ -246,7 +249,7 @@ class C18(core.Prop):
                 w.append(x)
             return {'pos': pos, 'w': w}
         n = shape['n']
-        el = ['C', 'N', 'O', 'C', 'S', 'F'][:n]
+        el = ['C', 'N', 'O', 'S', 'F', 'Cl'][:n]           # pairwise different: an RDKit atom is identified by its symbol
         charges = [sym_int('q%d' % i, -1, 1) for i in range(n)]
         if shape['mode'] == 'embed' or (shape['n'] >= 4 and shape['keyset'] == 'sparse'):
             orders = [1 + (k % 2) for k in range(len(shape['edges']))]     # bond orders play no role for the index mapping
@@ -292,7 +295,8 @@ class C18(core.Prop):
         if shape['mode'] == 'embed':
             def run():
                 M.rdkit.embed_3d_via_rdkit(g)
-                return {n: (vec_list(d['position']) if 'position' in d else None) for n, d in g.nodes(data=True)}
+                return {'pos': {n: (vec_list(d['position']) if 'position' in d else None) for n, d in g.nodes(data=True)},
+                        'symbols': list(FAllChem.last_symbols or [])}
             return core.guard(run)
 
         def run():
@@ -328,12 +332,16 @@ class C18(core.Prop):
             return cl
         keys = self._keys(shape)
         if shape['mode'] == 'embed':
+            syms = o['symbols']
             for i, kk in enumerate(keys):
-                got = o.get(kk)
+                got = o['pos'].get(kk)
                 cl.append(('every_node_has_a_position', got is not None))
-                if got is not None:
-                    cl.append(('node_stores_position_of_its_own_atom', band(*[gg.val_eq(got[c], inp['pos'][i][c]) for c in range(3)])))
-            cl.append(('no_foreign_nodes', sorted(o.keys()) == sorted(keys)))
+                # the node's own atom is the RDKit atom that carries the node's (unique) element symbol
+                own = syms.index(inp['el'][i]) if inp['el'][i] in syms else None
+                cl.append(('an_rdkit_atom_was_created_for_the_node', own is not None))
+                if got is not None and own is not None:
+                    cl.append(('node_stores_position_of_its_own_atom', band(*[gg.val_eq(got[c], inp['pos'][own][c]) for c in range(3)])))
+            cl.append(('no_foreign_nodes', sorted(o['pos'].keys()) == sorted(keys)))
             return cl
         n = shape['n']
         cl.append(('node_count', len(o['nodes']) == n))
